@@ -23,21 +23,22 @@ def run(project, rep):
     schema = Schema(project)
     schema.check_floors()
     rep.rule("W-R1", "writer/reader tag tables and child order agree (S-R1, S-R4, S-R5, M1..M5)")
-    S.all_m(schema, rep)
-    S.s_r1_tags(schema, rep)
-    S.s_r4_contiguity(schema, rep)
-    S.s_r5_listkinds(schema, rep)
-    W.w_r2_leaf_predicate(project, rep)
-    W.l_r2_escaping(project, rep)
-    W.l_r2_escaping(project, rep, rule="W-R3", reader_decodable=True)
+    for m_ in (S.m1_from_etree, S.m2_update_args, S.m3_to_etree, S.m4_apply_args, S.m5_validate_args):
+        rep.run(m_, schema, rep)
+    rep.run(S.s_r1_tags, schema, rep)
+    rep.run(S.s_r4_contiguity, schema, rep)
+    rep.run(S.s_r5_listkinds, schema, rep)
+    rep.run(W.w_r2_leaf_predicate, project, rep)
+    rep.run(W.l_r2_escaping, project, rep)
+    rep.run(W.l_r2_escaping, project, rep, rule="W-R3", reader_decodable=True)
     rep.rule("W-R4", "converter pairing: the type a reader produces has a writer (T-R1)")
-    T.t_r1(project, rep)
+    rep.run(T.t_r1, project, rep)
     rep.rule("W-R5", "serialize(): end-tag-less only below 200, header for the effective version (Q-R6)")
-    Q.q_r6_serialize(project, rep)
-    W.w_r6_html_names(schema, rep)
-    W.w_r7_indent(project, rep)
-    T.t_r7(project, rep)
+    rep.run(Q.q_r6_serialize, project, rep)
+    rep.run(W.w_r6_html_names, schema, rep)
+    rep.run(W.w_r7_indent, project, rep)
+    rep.run(T.t_r7, project, rep)
     from .. import rules_header as H
     rep.rule("W-R8", "the header written for a version is of the kind the reader expects and the body is decoded with the codec the header declares (B-R1, B-R3, H-R2, H-R3)")
-    H.b_rules(project, rep)
-    H.h_rules(project, rep)
+    rep.run(H.b_rules, project, rep)
+    rep.run(H.h_rules, project, rep)
